@@ -345,6 +345,10 @@ def value_to_c(v):
         d = str(v.get('data', '0'))
         if d in ('TRUE', 'true'): return '1'
         if d in ('FALSE', 'false'): return '0'
+        if n == 'float' and d.lstrip('+-').lower() in ('inf', 'infinity', 'nan'):
+            # CBMC prints non-finite floats as inf / -inf / NaN: not C literals
+            core = '__builtin_inf()' if d.lstrip('+-').lower() != 'nan' else '__builtin_nan("")'
+            return ('(-%s)' % core) if d.startswith('-') else core
         t = v.get('type', '')
         if n == 'integer':
             if d[-1:].isalpha(): return d          # cbmc already printed a suffix (e.g. '4u', '2ul')
